@@ -435,6 +435,8 @@ type dtCase struct {
 	// InstLoc: the location the INSTANT is carried in ("=" the date-time's own; else a zone name, "UTC", or "fixed" for a
 	// nameless fixed offset) - which instant is earlier does not depend on where the two values are displayed
 	InstLoc string `json:"instant_loc,omitempty"`
+	// SubNs: nanoseconds below the millisecond added to the date-time and to the instant (0..999999: the whole second stays)
+	SubNs [2]int `json:"sub_ns,omitempty"`
 }
 
 func floorDiv(a, b int64) int64 {
@@ -481,6 +483,11 @@ func checkDT(c dtCase) *rp.Fail {
 		if base.IsZero() {
 			ev.Class("datetime/the-zero-value-against-an-instant", 1)
 		}
+	}
+	if c.SubNs != [2]int{} && base.Unix() >= 0 && inst.Unix() >= 0 {
+		// clock readings have nanoseconds: x.999999999 s is still second x
+		base, inst = base.Add(time.Duration(c.SubNs[0])), inst.Add(time.Duration(c.SubNs[1]))
+		ev.Class("datetime/nanoseconds-below-the-millisecond", 1)
 	}
 	want := floorDiv(base.UnixMilli(), 1000) < floorDiv(inst.UnixMilli(), 1000)
 	if c.Unix == zeroUnix && c.Millis == 0 && c.Loc == "" {
@@ -533,6 +540,10 @@ func genDT(t *rapid.T) dtCase {
 		c.DeltaMs = rapid.Int64Range(-3000, 3000).Draw(t, "delta")
 	default:
 		c.DeltaMs = rapid.Int64Range(-1_000_000_000, 1_000_000_000).Draw(t, "delta")
+	}
+	if rapid.IntRange(0, 2).Draw(t, "sub.ns") == 0 {
+		ns := []int{0, 1, 500_000, 999_000, 999_900, 999_950, 999_990, 999_999}
+		c.SubNs = [2]int{rapid.SampledFrom(ns).Draw(t, "sub.ns.base"), rapid.SampledFrom(ns).Draw(t, "sub.ns.instant")}
 	}
 	if rapid.IntRange(0, 5).Draw(t, "far.apart") == 0 {
 		// centuries apart ('now' against a never-expires date such as 2999-12-31 or 9999-12-31; differences beyond 2^63 ns)
